@@ -303,4 +303,17 @@ example (v : VerifierM) (x : Nat) (p : ProofM) (pis : List Nat) (ver : PVersion)
       v.verify x p pis ver :=
   nothing_else _ _ x p pis ver rfl rfl rfl rfl rfl
 
+/-- **Every transcript label carries the value of the same name** (tie by translation, re-read from the source on every run):
+    in `VerifierKey::seed_transcript_inner`, `Prover::prove_inner`, `Proof::verify` and `Proof::verify_legacy` the value passed
+    to `append_commitment(b"<label>", …)` / `append_scalar(b"<label>", …)` is the field / variable named `<label>` — so no
+    commitment or evaluation is absorbed under another one's label, twice, or not at all (the label lists themselves are
+    `SEED_TRANSCRIPT`, `PROVER_TRANSCRIPT`, `VERIFIER_TRANSCRIPT`, which the model's operation list is built from). -/
+theorem transcript_labels_bind_same_named_values :
+    Generated.SEED_BOUND_FIELDS = Generated.SEED_BOUND_LABELS ∧ Generated.SEED_BOUND_LABELS = Generated.SEED_TRANSCRIPT ∧
+    Generated.PROVER_BOUND_FIELDS = Generated.PROVER_BOUND_LABELS ∧
+    Generated.VERIFIER_BOUND_FIELDS = Generated.VERIFIER_BOUND_LABELS ∧
+    Generated.VERIFIER_LEGACY_BOUND_FIELDS = Generated.VERIFIER_LEGACY_BOUND_LABELS ∧
+    Generated.VERIFIER_LEGACY_BOUND_LABELS = Generated.VERIFIER_BOUND_LABELS ∧
+    Generated.PROVER_BOUND_LABELS.length = 26 ∧ Generated.VERIFIER_BOUND_LABELS.length = 27 := by decide
+
 end Plonk.Props.C03
